@@ -107,9 +107,24 @@ func VerifyV4Signature(root RootUserConfig, iam auth.IAMService, logger s3log.Au
 
 		hashPayload := ctx.Get("X-Amz-Content-Sha256")
 		if utils.IsBigDataAction(ctx) {
-			// for streaming PUT actions, authorization is deferred
-			// until end of stream due to need to get length and
-			// checksum of the stream to validate authorization
+			// The signature covers the declared payload hash and length,
+			// not the data itself, so it is verified right away: a request
+			// without a valid signature must never reach a handler (many
+			// handlers act without reading the body to its end). What is
+			// deferred to the end of the stream is the comparison of the
+			// data with the declared hash.
+			var declaredLength int64
+			if clStr := ctx.Get("Content-Length"); clStr != "" {
+				declaredLength, err = strconv.ParseInt(clStr, 10, 64)
+				if err != nil {
+					return sendResponse(ctx, s3err.GetAPIError(s3err.ErrInvalidRequest), logger, mm)
+				}
+			}
+			err = utils.CheckValidSignature(ctx, authData, account.Secret, hashPayload, tdate, declaredLength, debug)
+			if err != nil {
+				return sendResponse(ctx, err, logger, mm)
+			}
+
 			wrapBodyReader(ctx, func(r io.Reader) io.Reader {
 				return utils.NewAuthReader(ctx, r, authData, account.Secret, debug)
 			})
